@@ -321,7 +321,18 @@ def generate(seed, tier):
         sc['until'] = t_c + dpd_max + 20 + 3 + 14.0 + 8
         # no new traffic after the crash (it would create fresh negotiations, which is fine, but keeps the run simple)
         sc['ops'] = [o_ for o_ in sc['ops'] if not (o_['op'] in ('packet', 'expire') and o_['t'] > t_c)]
-    if batch in ('crash', 'idle', 'loss') and r.random() < 0.4:
+    if batch == 'loss' and sc['meta'].get('auth') == 'psk' and r.random() < 0.3:
+        # the peer is the active reference responder (sim/refpeer.py): it answers an IKE_SA rekey whose KE group it does not prefer with
+        # INVALID_KE_PAYLOAD and keeps the IKE_SA (a pyikev2 responder closes it), so the retried rekey request - and its loss - is reached
+        g = r.sample(['14', '19', '20'], 2)
+        sc['nodes']['A']['conf']['to-b']['dh'] = list(g)
+        sc['nodes']['B']['conf']['to-a']['dh'] = list(reversed(g))
+        sc['nodes']['A']['conf']['to-b']['lifetime'] = r.choice([8, 12, 20])
+        sc['controller_attrs'] = {}
+        workload.to_refpeer(sc, r, {'invalid_ke_on_ike_rekey': True, 'cookie': False})
+        sc['meta']['batch'] = batch
+        sc['meta']['refpeer'] = True
+    if batch in ('crash', 'idle', 'loss') and r.random() < 0.4 and 'refpeer' not in sc:
         # an off-path sender keeps addressing datagrams to the IKE_SAs it saw on the wire: right SPIs and flags, but nothing in them passes
         # the integrity check (bare header, Encrypted payload cut off, flipped checksum, unknown exchange).  "Nothing authentic has
         # arrived": none of it may postpone the DPD probe, the rekey or the give-up
@@ -349,6 +360,15 @@ def run(scenario):
         wire = ctx['wire'] = WireLog(w)
         ctx['cov'] = workload.Coverage(w)
         orc = ctx['oracle'] = TimerOracle(w, wire, strict)
+        if scenario.get('refpeer'):
+            peer = ctx['peer'] = workload.attach_refpeer(w, scenario)
+            send0 = peer._send
+
+            def send(data, dst):
+                # what the reference peer answers is authentic traffic of the peer (the oracle learns "authentic" from the wire log)
+                wire.authentic.setdefault(sha(bytes(data)), {'sender': 'R', 't': w.now})
+                return send0(data, dst)
+            peer._send = send
         if strict:
             orc.hard_grace = orc.budget + 6 * TICK
         busy = scenario.get('busy')
